@@ -1,11 +1,13 @@
 import Mdsort.Proofs.FlagsTime
+import Mdsort.Proofs.DestEval
+import Mdsort.Proofs.DestExact
 
 /-!
 # C09 - maildir names, flags, subdirectories and timestamps (flag algebra)
 
-This file holds the pure part: parsing flags from a file name, writing them back, and the
-`S` adjustment.  Destination (maildir/subdirectory of a sequence of move/flag/flags actions),
-fresh names and timestamps are world-level statements (Props/World).
+This file holds the pure part: parsing flags from a file name, writing them back, the `S`
+adjustment, and the destination (maildir/subdirectory) a sequence of move/flag/flags actions
+computes.  Fresh names and timestamps are world-level statements (Props/World).
 -/
 
 namespace Mdsort.Props
@@ -37,5 +39,115 @@ example : Model.flagsParse [49, 46, 104, 111, 115, 116, 58, 50, 44, 70, 83] = so
   decide
 
 example : Model.flagsStr ⟨2 ^ 5 + 2 ^ 18, 1⟩ 64 = some [58, 50, 44, 70, 83, 97] := by decide
+
+/-! ## Destination of a sequence of move / flag / flags actions
+
+`Spec.dest`: (maildir of the last `move`, else the message's) / (subdirectory of the last `flag`, else
+the message's).  `Model.finalPlace env ml0 actions`: `matches_append` of the actions' entries after the
+match list `ml0`, then the `mh_path` of the last move/flag/flags entry (where `matches_exec` leaves the
+message).  The pinned code agrees with the documentation exactly on `Spec.destOK` (finding F12). -/
+
+/-- For every message `root/sub/name` (`root` not empty, absolute or relative; no `/` in `sub` and `name`,
+`sub` shorter than `NAME_MAX + 1`), every sequence of move/flag/flags actions with non-empty names whose
+joined paths fit `PATH_MAX`, evaluated after any match list without move/flag/flags entries: if the
+sequence is in `Spec.destOK`, the message ends in the documented place. -/
+theorem C09_destination_partial (env : Env) (root sub name : Bytes) (ml0 : MatchList) (actions : List Spec.PathAction)
+    (hpath : env.path = root ++ [47] ++ sub ++ [47] ++ name)
+    (hroot : root ≠ []) (hsub : (47 : UInt8) ∉ sub) (hname : (47 : UInt8) ∉ name)
+    (hsubl : sub.length < NAME_MAX1)
+    (hwf : Spec.actionsWF actions = true) (hfit : Spec.destFits PATH_MAX (root, sub) actions = true)
+    (hml0 : ∀ e ∈ ml0, e.moves = false) (hok : Spec.destOK actions = true) :
+    finalPlace env ml0 actions = if actions.isEmpty then none else some (Spec.destPath (root, sub) actions) :=
+  Proofs.Dest.finalPlace_eq_dest env root sub name ml0 actions hpath hroot hsub hname hsubl hwf hfit hml0 hok
+
+/-- The same for `Model.eval` itself: `c` is the expression the grammar builds from the action list of a
+rule (move / flag / flags nodes joined by `and`; `Proofs.Dest.ActionChain` relates it to the actions with
+their line numbers and asks that each node passes its own length / letter check).  Evaluated in any state
+whose match list has no move/flag/flags entry it matches, and the last move/flag/flags entry of the
+resulting match list - the one whose `mh_path` the message is finally moved to - has the documented path. -/
+theorem C09_destination_eval (env : Env) (rootMsg m : Msg) (st : St) (part : Nat) (c : Expr)
+    (ls : List (Nat × Spec.PathAction)) (hc : Proofs.Dest.ActionChain c ls) (root sub name : Bytes)
+    (hpath : env.path = root ++ [47] ++ sub ++ [47] ++ name)
+    (hroot : root ≠ []) (hsub : (47 : UInt8) ∉ sub) (hname : (47 : UInt8) ∉ name)
+    (hsubl : sub.length < NAME_MAX1)
+    (hwf : Spec.actionsWF (ls.map (·.2)) = true) (hfit : Spec.destFits PATH_MAX (root, sub) (ls.map (·.2)) = true)
+    (hst : ∀ e ∈ st.ml, e.moves = false) (hok : Spec.destOK (ls.map (·.2)) = true) :
+    ∃ st', eval env rootMsg c part m st = (.match, st') ∧
+      lastPath st'.ml = some (Spec.destPath (root, sub) (ls.map (·.2))) :=
+  Proofs.Dest.eval_chain_dest env rootMsg m st part c ls hc root sub name hpath hroot hsub hname hsubl hwf hfit hst hok
+
+/-- `Spec.destOK` is exact: for all 1093 sequences of at most 6 actions whose names are pairwise distinct (and
+distinct from the message's maildir `/S` and subdirectory `old`), the model ends in the documented place
+if and only if `destOK` holds. -/
+theorem C09_destOK_exact_upto_6 :
+    ∀ n ∈ List.range 7, ∀ ks ∈ Proofs.Dest.kindSeqs n,
+      Proofs.Dest.agrees ks = Spec.destOK (Proofs.Dest.genActions ks) :=
+  Proofs.Dest.destOK_exact_upto_6
+
+/-- The same statement without `Spec.destOK`: what the documentation promises.  It is false. -/
+def C09_destination : Prop :=
+  ∀ (env : Env) (root sub name : Bytes) (ml0 : MatchList) (actions : List Spec.PathAction),
+    env.path = root ++ [47] ++ sub ++ [47] ++ name →
+    root ≠ [] → (47 : UInt8) ∉ sub → (47 : UInt8) ∉ name → sub.length < NAME_MAX1 →
+    Spec.actionsWF actions = true → Spec.destFits PATH_MAX (root, sub) actions = true →
+    (∀ e ∈ ml0, e.moves = false) →
+    finalPlace env ml0 actions = if actions.isEmpty then none else some (Spec.destPath (root, sub) actions)
+
+/-- Environment of the witnesses: the message `/S/new/1`. -/
+def destWitnessEnv : Env where
+  rx := fun _ _ => .nomatch
+  command := fun _ => 0
+  isDir := fun _ => false
+  now := 0
+  strptime := fun _ => none
+  zoneName := fun _ => none
+  fileTime := fun _ => none
+  dryrun := false
+  path := [47, 83, 47, 110, 101, 119, 47, 49]
+
+/-- F12, first class: `move "/D" flags "F"` on `/S/new/1` moves the message to `/D/new` and then back to
+`/S/new` (the `flags` entry takes its destination from the original path). -/
+theorem C09_destination_witness_flags_after_move :
+    Spec.destOK [.move [47, 68], .flags [70]] = false ∧
+    finalPlace destWitnessEnv [] [.move [47, 68], .flags [70]] = some [47, 83, 47, 110, 101, 119] ∧
+    Spec.destPath ([47, 83], [110, 101, 119]) [.move [47, 68], .flags [70]] = [47, 68, 47, 110, 101, 119] := by
+  decide
+
+/-- F12, second class: `move "/B" flag new flag !new` on `/S/new/1` ends in `/S/cur`, not `/B/cur` (the
+"consecutive duplicates" branch of `matches_merge` frees the entry that had inherited `/B`). -/
+theorem C09_destination_witness_duplicate_merge :
+    Spec.destOK [.move [47, 66], .flag [110, 101, 119], .flag [99, 117, 114]] = false ∧
+    finalPlace destWitnessEnv [] [.move [47, 66], .flag [110, 101, 119], .flag [99, 117, 114]]
+      = some [47, 83, 47, 99, 117, 114] ∧
+    Spec.destPath ([47, 83], [110, 101, 119]) [.move [47, 66], .flag [110, 101, 119], .flag [99, 117, 114]]
+      = [47, 66, 47, 99, 117, 114] := by
+  decide
+
+theorem C09_destination_false : ¬ C09_destination := by
+  intro h
+  have h1 := h destWitnessEnv [47, 83] [110, 101, 119] [49] [] [.move [47, 68], .flags [70]] rfl (by decide) (by decide) (by decide)
+    (by decide) (by decide) (by decide) (by intro e he; cases he)
+  rw [C09_destination_witness_flags_after_move.2.1] at h1
+  revert h1
+  decide
+
+/-! Non-vacuity: `flags "F" move "/A" flag !new move "/B" flag new` on `/S/new/1` (both kinds occur twice,
+the last two differ) satisfies every hypothesis, and ends in `/B/new`. -/
+example : Spec.destOK [.flags [70], .move [47, 65], .flag [99, 117, 114], .move [47, 66], .flag [110, 101, 119]] = true ∧
+    Spec.actionsWF [.flags [70], .move [47, 65], .flag [99, 117, 114], .move [47, 66], .flag [110, 101, 119]] = true ∧
+    Spec.destFits PATH_MAX ([47, 83], [110, 101, 119])
+      [.flags [70], .move [47, 65], .flag [99, 117, 114], .move [47, 66], .flag [110, 101, 119]] = true ∧
+    finalPlace destWitnessEnv [] [.flags [70], .move [47, 65], .flag [99, 117, 114], .move [47, 66], .flag [110, 101, 119]]
+      = some [47, 66, 47, 110, 101, 119] := by
+  decide
+
+/-! Non-vacuity of `C09_destination_eval`: the expression of `flags "F" move "/A" flag !new` (lines 3, 4, 5),
+`(flags and move) and flag` as parse.y nests it, is an action chain, and its actions are in `destOK`. -/
+example : Proofs.Dest.ActionChain
+    (.and 5 (.and 4 (.flags 3 [70]) (.move 4 [47, 65])) (.flag 5 [99, 117, 114]))
+    ([(3, .flags [70])] ++ [(4, .move [47, 65])] ++ [(5, .flag [99, 117, 114])]) :=
+  .and _ _ _ _ _ (.and _ _ _ _ _ (.flags _ _ (by decide)) (.move _ _ (by decide))) (.flag _ _ (by decide))
+
+example : Spec.destOK [.flags [70], .move [47, 65], .flag [99, 117, 114]] = true := by decide
 
 end Mdsort.Props
